@@ -107,7 +107,7 @@ def run(c):
     ma, tra, la = _world(c, "A", "MC_AssetAdmin", "Trace_AssetAdmin", _aa_cfgs(c.tier), AA_INV, *((30, 60) if quick else (400, 100)))
     st, sa = trt["stats"], tra["stats"]
     need = {k: st.get(k, 0) for k in ("genesisMints", "genesisAgain", "genesisUnlisted", "mints", "burns", "burnsAtBook", "burnsOverBalance", "govBurns",
-                                      "emissions", "emissionsExact", "rebases", "rejected", "twoBooks")}
+                                      "emissions", "emissionsExact", "rebases", "rejected", "thirdApp")}
     need.update({k: sa.get(k, 0) for k in ("appsAdded", "appsRefused", "govTimeUpdates", "tokensConfigured", "tokensRefused", "assetsAdded", "assetsRefused",
                                            "feePaid", "feeShort", "assetUpdates", "assetRenames", "assetUpdatesRefused", "pairsAdded", "pairsRefused",
                                            "pairUpdates", "pairUpdatesRefused", "extsAdded", "extsRefused", "extUpdates", "extUpdatesRefused", "multiRollback")})
@@ -127,7 +127,7 @@ def run(c):
              "at / above the book and the holder's balance, emission amounts negative / zero / divisible / indivisible over 0..3 addresses) and "
              "MC_AssetAdmin (profiles assets / apps / ext: request alphabets with one attribute wrong at a time, clashes with every existing record, "
              "multi-record proposals that must roll back, updates of live products) is executed once on the real code by a graph walk; plus seeded "
-             "behaviours (random genesis configurations incl. one asset under two apps; mixed administration histories on one store); each log node is "
+             "behaviours (random valid genesis configurations, a third app whose token also has external supply; mixed administration histories on one store); each log node is "
              "a TLC state of the trace spec"),
         assumptions=["governance proposals are executed the way x/gov executes a passed proposal (ValidateBasic at submission, handler on a cache-wrapped context)",
                      "wasm bindings are entered behind the sender guard (exported Msg* functions of app/wasm), atomic per dispatched message",
